@@ -7,7 +7,7 @@ All payload types are type variables with NO algebraic laws:
   `P`  `self.subap_positions`                       (lines 90-96)
   `Q`  `self.subap_layer_positions` + `self.subap_layer_diameters` (lines 100-133)
   `A`  one argument tuple handed to `wfs_covariance` (lines 157-161 / 205-209)
-  `ρ`  one result `(cov_xx, cov_yy, cov_xy)` of `wfs_covariance`
+  `ρ`  one result `(cov_xx, cov_yy, cov_xy, cov_yx)` of `wfs_covariance` (four blocks since the C01 cross-block fix)
   `α`  the float32 matrix `self.covariance_matrix`
 so an equality proved here says that the same operations are applied to the same operands in the same order, which is
 what bit-identical floating point results need.
@@ -31,7 +31,10 @@ def pairs (n : Nat) : List (Nat × Nat) :=
   * `get()` returns once every chunk has completed: the stored results, in position order.
 The scheduler is modelled by the ORDER in which chunks complete — an arbitrary list of chunk numbers. -/
 
-/-- `Pool._map_async`'s chunk size for `len` items on `workers` processes -/
+/-- `Pool._map_async`'s chunk size for `len` items on `workers` processes.  Meaningful for `workers ≥ 1` only:
+    `Pool(0)` raises `ValueError` before any `map` (and `divmod(len, 0)` would raise); at `workers = 0` Lean's
+    `n % 0 = n`, `n / 0 = 0` make this definition return 1 — an artefact no theorem about the library relies on
+    (`build` returns `none` for `threads = 0`; `Props/C03.lean`: `chunkSize_spec`, `poolMap_eq_pos`). -/
 def chunkSize (len workers : Nat) : Nat :=
   if len = 0 then 0
   else if len % (workers * 4) = 0 then len / (workers * 4) else len / (workers * 4) + 1
